@@ -123,7 +123,7 @@ pub fn build_bytes(t: &mut Tape) -> (Vec<u8>, bool) {
     (c.bytes, c.hostile)
 }
 
-fn rename(s: &crate::model::Sprite) -> crate::model::Sprite {
+pub fn rename(s: &crate::model::Sprite) -> crate::model::Sprite {
     let mut a = s.clone();
     for (i, l) in a.layers.iter_mut().enumerate() {
         l.name = format!("sib-{}-{}", i, l.name.chars().rev().take(8).collect::<String>());
@@ -467,6 +467,9 @@ pub fn digest_case(seed: u64, i: u64) -> String {
     let tape: Vec<u32> = (0..1200).map(|_| r.next() as u32).collect();
     let mut t = Tape::new(&tape);
     let (bytes, _) = build_bytes(&mut t);
+    // every fifth case carries chunks of the ignored types whose body is odd (empty, short, random): whether they
+    // are looked at must not depend on the process (for instance on whether a logger is installed)
+    let bytes = if i % 5 == 2 { insert_odd_ignorable(&bytes, &mut r) } else { bytes };
     let r = guarded(|| match AsepriteFile::read(&bytes[..]) {
         Err(e) => format!("err:{}", e.to_string().chars().take(60).collect::<String>()),
         Ok(f) => {
@@ -493,6 +496,127 @@ pub fn digest_case(seed: u64, i: u64) -> String {
     }
 }
 
+/// Insert chunks of the ignored types (cel extra 0x2006, mask 0x2016, path 0x2017) with arbitrary bodies at
+/// random positions; counts and sizes are fixed up. Returns the input unchanged when its framing is not regular.
+pub fn insert_odd_ignorable(bytes: &[u8], r: &mut Rng) -> Vec<u8> {
+    let u16at = |o: usize| u16::from_le_bytes([bytes[o], bytes[o + 1]]) as usize;
+    let u32at = |o: usize| u32::from_le_bytes([bytes[o], bytes[o + 1], bytes[o + 2], bytes[o + 3]]) as usize;
+    if bytes.len() < 128 + 16 {
+        return bytes.to_vec();
+    }
+    let nframes = u16at(6);
+    let mut out = bytes[..128].to_vec();
+    let mut pos = 128;
+    for _ in 0..nframes {
+        if pos + 16 > bytes.len() {
+            return bytes.to_vec();
+        }
+        let fsz = u32at(pos);
+        let (old, new) = (u16at(pos + 6), u32at(pos + 12));
+        let n = if new != 0 { new } else { old };
+        if fsz < 16 || pos + fsz > bytes.len() || n > 5000 {
+            return bytes.to_vec();
+        }
+        let mut chunks: Vec<Vec<u8>> = vec![];
+        let mut p = pos + 16;
+        for _ in 0..n {
+            if p + 6 > pos + fsz {
+                return bytes.to_vec();
+            }
+            let csz = u32at(p);
+            if csz < 6 || p + csz > pos + fsz {
+                return bytes.to_vec();
+            }
+            chunks.push(bytes[p..p + csz].to_vec());
+            p += csz;
+        }
+        if p != pos + fsz {
+            return bytes.to_vec();
+        }
+        for _ in 0..1 + r.below(3) {
+            let ty = [0x2006u16, 0x2006, 0x2016, 0x2017][r.below(4) as usize];
+            let blen = [0usize, 0, 1, 3, 4, 19, 35, 36, 40][r.below(9) as usize];
+            let mut c = vec![];
+            c.extend_from_slice(&((6 + blen) as u32).to_le_bytes());
+            c.extend_from_slice(&ty.to_le_bytes());
+            c.extend((0..blen).map(|_| r.next() as u8));
+            let at = r.below(chunks.len() as u64 + 1) as usize;
+            chunks.insert(at, c);
+        }
+        let mut hdr = bytes[pos..pos + 16].to_vec();
+        let body: usize = chunks.iter().map(|c| c.len()).sum();
+        hdr[0..4].copy_from_slice(&((16 + body) as u32).to_le_bytes());
+        let cnt = chunks.len();
+        hdr[6..8].copy_from_slice(&(if cnt < 0xFFFF { cnt as u16 } else { 0xFFFF }).to_le_bytes());
+        hdr[12..16].copy_from_slice(&(if new != 0 || cnt >= 0xFFFF { cnt as u32 } else { 0 }).to_le_bytes());
+        out.extend(hdr);
+        for c in chunks {
+            out.extend(c);
+        }
+        pos += fsz;
+    }
+    out.extend_from_slice(&bytes[pos..]);
+    let total = out.len() as u32;
+    if u32at(0) == bytes.len() {
+        out[0..4].copy_from_slice(&total.to_le_bytes());
+    }
+    out
+}
+
+/// Runs in a fresh process (`vcheck --first-use observe <seed> <i>`): 16 threads leave a barrier together and each
+/// loads and observes the same file; whatever the library sets up on first use is set up under contention.
+pub fn first_use_main(seed: u64, i: u64) -> ! {
+    let barrier = std::sync::Arc::new(std::sync::Barrier::new(16));
+    let hs: Vec<_> = (0..16)
+        .map(|_| {
+            let barrier = barrier.clone();
+            std::thread::Builder::new()
+                .stack_size(8 << 20)
+                .spawn(move || {
+                    barrier.wait();
+                    digest_case(seed, i)
+                })
+                .unwrap()
+        })
+        .collect();
+    let ds: Vec<String> = hs.into_iter().map(|h| h.join().unwrap_or_else(|_| "thread-panicked".into())).collect();
+    println!("{}", json!({"digests": ds}));
+    std::process::exit(0)
+}
+
+fn run_first_use(run: &mut Run) {
+    let exe = std::env::current_exe().expect("own executable path");
+    let n = if run.thorough() { 400 } else { 40 };
+    let seed = mix(run.seed, 0xF125);
+    let mut loaded = 0u64;
+    for i in 0..n {
+        let want = digest_case(seed, i);
+        if want == "skipped-large" {
+            continue;
+        }
+        let out = std::process::Command::new(&exe).arg("--first-use").arg("observe").arg(seed.to_string()).arg(i.to_string()).output().expect("spawn vcheck --first-use");
+        let line = String::from_utf8_lossy(&out.stdout).lines().last().unwrap_or("").to_string();
+        let case = || json!({"first_use_case": i, "digest_seed": seed});
+        let res = match serde_json::from_str::<serde_json::Value>(&line) {
+            Ok(v) => {
+                let ds: Vec<String> = v["digests"].as_array().map(|a| a.iter().map(|x| x.as_str().unwrap_or("").to_string()).collect()).unwrap_or_default();
+                let bad = ds.iter().filter(|d| **d != want).count();
+                if bad == 0 && ds.len() == 16 {
+                    if want.starts_with("ok:") {
+                        loaded += 1;
+                    }
+                    Ok(Outcome::new(want.starts_with("ok:"), mix(seed, i)).label("first-use-under-contention"))
+                } else {
+                    Err(Failure::new("first-use-dependent", format!("a file loaded and observed by 16 threads at once as the first thing a process does gives another result than loaded alone: alone = {:?}, {} of 16 threads differ, e.g. {:?}", want, bad, ds.iter().find(|d| **d != want))))
+                }
+            }
+            Err(_) => Err(Failure::new("first-use:process-died", format!("process died while 16 threads loaded the same file as its first action: status {:?}, stderr {}", out.status, String::from_utf8_lossy(&out.stderr).chars().take(300).collect::<String>()))),
+        };
+        run.direct(case, res);
+    }
+    run.extra.insert("first_use_cases_loaded".into(), json!(loaded));
+}
+
 pub fn obs_digest_main(seed: u64, n: u64) -> ! {
     let lines = par_chunks(16, n, Vec::new, |acc: &mut Vec<(u64, String)>, i| acc.push((i, digest_case(seed, i))));
     let mut all: Vec<(u64, String)> = lines.into_iter().flatten().collect();
@@ -504,9 +628,13 @@ pub fn obs_digest_main(seed: u64, n: u64) -> ! {
 }
 
 fn run_digest(profile: &str, seed: u64, n: u64) -> Result<Vec<String>, String> {
+    // "nologger" = the `checked` build run without a `log` backend installed (all others install one that formats
+    // every record)
+    let nolog = profile == "nologger";
+    let profile = if nolog { "checked" } else { profile };
     // "noutils" = the `fast` profile built without the library's optional `utils` feature (own target dir)
     let exe = if profile == "noutils" { format!("{}/noutils/fast/vcheck", target_dir()) } else { format!("{}/{}/vcheck", target_dir(), profile) };
-    let out = std::process::Command::new(&exe).arg("--obs-digest").arg(seed.to_string()).arg(n.to_string()).output().map_err(|e| format!("cannot run {}: {}", exe, e))?;
+    let out = std::process::Command::new(&exe).arg("--obs-digest").arg(seed.to_string()).arg(n.to_string()).env("VERIF_LOGGER", if nolog { "off" } else { "on" }).output().map_err(|e| format!("cannot run {}: {}", exe, e))?;
     if !out.status.success() {
         return Err(format!("{} exited with {:?}", exe, out.status));
     }
@@ -514,7 +642,7 @@ fn run_digest(profile: &str, seed: u64, n: u64) -> Result<Vec<String>, String> {
 }
 
 pub fn run(run: &mut Run) {
-    run.rule = "cases: loadable files (well-formed, plus hostile files that were accepted) x a generated list of API calls (every accessor kind with in-range arguments) evaluated (a) in list order, in a seeded permuted order and on a second pass, (b) concurrently on a shared &AsepriteFile from T in 2..16 threads (barrier start, own permutation per thread), (c) on a second load of the same bytes (whole-API observation equal); (d) a seeded corpus is observed by four builds of the library (opt-level 3 with overflow checks + debug assertions, opt-level 3 without, opt-level 0 with, and opt-level 3 without the optional `utils` feature) and the digests (including tile lookups at extreme coordinates) must be identical; (e) Send + Sync of AsepriteFile and its reference types is instantiated in a separate crate whose Send/Sync compile error is the violation. non-trivial: call list with >= 8 distinct calls including an image-producing call, T >= 2; distinct by file hash and schedule".into();
+    run.rule = "cases: loadable files (well-formed, plus hostile files that were accepted) x a generated list of API calls (every accessor kind with in-range arguments) evaluated (a) in list order, in a seeded permuted order and on a second pass, (b) concurrently on a shared &AsepriteFile from T in 2..16 threads (barrier start, own permutation per thread), (c) on a second load of the same bytes (whole-API observation equal); (d) a seeded corpus (a fifth of it carrying odd bodies in chunks of the ignored types) is observed by four builds of the library (opt-level 3 with overflow checks + debug assertions, opt-level 3 without, opt-level 0 with, and opt-level 3 without the optional `utils` feature) and once more without a `log` backend installed (every other process installs one that formats each record) and the digests (including tile lookups at extreme coordinates) must be identical; (f) in fresh processes, 16 threads load and observe the same file as the first thing the process does (lazy one-time initialisation under contention) and must all see what a single-threaded load sees; (e) Send + Sync of AsepriteFile and its reference types is instantiated in a separate crate whose Send/Sync compile error is the violation. non-trivial: call list with >= 8 distinct calls including an image-producing call, T >= 2; distinct by file hash and schedule".into();
     run.assumptions = vec!["the harness does not control the thread schedule; (e) is decided by the compiler".into(), "Debug output is compared by length only (hash-map order is documented as arbitrary)".into()];
     // (e)
     match std::env::var("C16_TRAITS").unwrap_or_default().as_str() {
@@ -530,6 +658,8 @@ pub fn run(run: &mut Run) {
             run.inconclusive = Some(format!("Send+Sync crate was not built ({})", other));
         }
     }
+    // (f) first use under contention, fresh processes
+    run_first_use(run);
     // (a)-(c)
     let (lanes, cases) = if run.thorough() { (16, 4000) } else { (16, 150) };
     run_tapes(run, lanes, cases, 2000, &check);
@@ -537,7 +667,7 @@ pub fn run(run: &mut Run) {
     let n = if run.thorough() { 6000 } else { 300 };
     let seed = run.seed;
     let mut digests = vec![];
-    for p in ["checked", "fast", "dev0", "noutils"] {
+    for p in ["checked", "fast", "dev0", "noutils", "nologger"] {
         match run_digest(p, seed, n) {
             Ok(d) => digests.push((p, d)),
             Err(e) => {
@@ -545,7 +675,7 @@ pub fn run(run: &mut Run) {
             }
         }
     }
-    if digests.len() == 4 {
+    if digests.len() == 5 {
         let mut cmp = 0u64;
         let mut loaded = 0u64;
         for i in 0..digests[0].1.len() {
@@ -567,6 +697,18 @@ pub fn run(run: &mut Run) {
 }
 
 pub fn replay(case: &serde_json::Value) -> CheckResult {
+    if let (Some(i), Some(s)) = (case.get("first_use_case").and_then(|x| x.as_u64()), case.get("digest_seed").and_then(|x| x.as_u64())) {
+        let want = digest_case(s, i);
+        let exe = std::env::current_exe().expect("exe");
+        for _ in 0..40 {
+            let out = std::process::Command::new(&exe).arg("--first-use").arg("observe").arg(s.to_string()).arg(i.to_string()).output().expect("spawn");
+            let line = String::from_utf8_lossy(&out.stdout).lines().last().unwrap_or("").to_string();
+            if line.matches(want.as_str()).count() != 16 {
+                return Err(Failure::new("first-use-dependent", format!("alone {:?}, contended: {}", want, line)));
+            }
+        }
+        return Ok(Outcome::new(true, 0));
+    }
     if let (Some(i), Some(s)) = (case.get("digest_case").and_then(|x| x.as_u64()), case.get("digest_seed").and_then(|x| x.as_u64())) {
         println!("digest in this build: {}", digest_case(s, i));
         return Ok(Outcome::new(false, 0));
